@@ -371,3 +371,7 @@ func VerifRegistersDiffer(L *LState, lo, hi int, ref []LValue) int {
 
 // VerifRegCap is len(reg.array).
 func VerifRegCap(L *LState) int { return len(L.reg.array) }
+
+// VerifIsCurrentThread: the state executing a host function is the one the global state records
+// as running (coroutine.running/status are derived from that record).
+func VerifIsCurrentThread(L *LState) bool { return L.G.CurrentThread == nil || L.G.CurrentThread == L }
